@@ -356,15 +356,15 @@ def oracle(ctx, case) -> None:
 
 # --------------------------------------------------------------------------- run / replay
 def _group_job(ctx, n: int) -> None:
-    hyp_search(ctx, GROUP_CASES, oracle, n)
+    hyp_search(ctx, GROUP_CASES, oracle, n, shrink_cap_s=5.0 if ctx.quick else 60.0)
 
 
 def _internal_job(ctx, n: int) -> None:
-    hyp_search(ctx, internal_case(), oracle, n, seed_salt=101)
+    hyp_search(ctx, internal_case(), oracle, n, seed_salt=101, shrink_cap_s=5.0 if ctx.quick else 60.0)
 
 
 def _sweep_job(ctx, n: int) -> None:
-    hyp_search(ctx, SWEEP_CASES, oracle, n, seed_salt=202, shrink_cap_s=30.0)
+    hyp_search(ctx, SWEEP_CASES, oracle, n, seed_salt=202, shrink_cap_s=5.0 if ctx.quick else 60.0)
 
 
 def _job(ctx, kind: str, n: int) -> None:
